@@ -155,6 +155,15 @@ impl Parser {
         let parameters =
             Rc::new(Self::function_parameters(parameters, true, true, true).to_err_vec()?);
         let body = Self::block(body)?;
+
+        if !input.user_data().did_scope_exit_with_value_if_required() {
+            return Err(vec![crate::ast::new_err(
+                input.as_span(),
+                &input.user_data().get_source_file_name(),
+                "this method reached its end without a return, when it expected a value".to_owned(),
+            )]);
+        }
+
         let function_type = FunctionType::new(parameters.clone(), return_type, true, false);
 
         ident.set_type_no_link(Cow::Owned(TypeLayout::Function(function_type)));
